@@ -6,6 +6,7 @@ import (
 	"encoding/json"
 	"errors"
 	"fmt"
+	"os"
 	"sort"
 
 	"github.com/oasisprotocol/oasis-core/go/storage/mkvs"
@@ -46,33 +47,18 @@ type TMOp struct {
 // Generate implements core.Engine.
 func (e TreeMapEngine) Generate(r *core.Rand, tier core.Tier) *core.Scenario {
 	k := TMKnobs{RootType: uint8(node.RootTypeState)}
-	switch r.Pick([]int{5, 3, 2}) {
-	case 0:
-		k.Backend = "none"
-	case 1:
-		k.Backend = "badger"
-	case 2:
-		k.Backend = "pathbadger"
-	}
+	k.Backend = GenTreeBackend(r.Pick)
 	if e.Faults && k.Backend == "none" {
-		k.Backend = "badger"
-	}
-	switch r.Intn(4) {
-	case 0:
-		k.NodeCap, k.ValueCap = 1, 1
-	case 1:
-		k.NodeCap, k.ValueCap = uint64(r.Range(1, 8)), uint64(r.Range(1, 64))
-	case 2:
-		k.NodeCap, k.ValueCap = uint64(r.Range(8, 64)), 0
-	default:
-		k.NodeCap, k.ValueCap = 0, 0 // unlimited
+		k.Backend = "memdb"
 	}
 	nk := r.Range(2, 24)
-	if r.Chance(1, 5) {
+	if r.Chance(1, 5) || (e.Faults && r.Chance(2, 3)) {
 		nk = r.Range(24, 80)
 	}
-	k.Keys = HexKeys(GenKeys(r, nk, 64))
+	gk := GenKeys(r, nk, 64)
+	k.Keys = HexKeys(gk)
 	nk = len(k.Keys)
+	k.NodeCap, k.ValueCap = GenCapacities(r, gk, k.Backend)
 	nops := r.Range(5, 60)
 	if tier == core.Thorough {
 		nops = r.Range(5, 150)
@@ -80,6 +66,8 @@ func (e TreeMapEngine) Generate(r *core.Rand, tier core.Tier) *core.Scenario {
 	w := []int{r.Range(4, 12), r.Range(1, 6), r.Range(1, 5), r.Range(2, 8), r.Range(1, 5), r.Range(0, 3), r.Range(0, 3), r.Range(0, 2), r.Range(0, 2), r.Range(0, 3), r.Range(0, 2), 0}
 	if e.Faults {
 		w[11] = r.Range(2, 6)
+		w[9] += 2  // commits, so that clean nodes exist to be evicted
+		w[10] += 2 // reopens, so that nodes must be fetched lazily
 	}
 	sc := &core.Scenario{Engine: "treemap", Knobs: core.MustJSON(k)}
 	vlen := func() int {
@@ -173,12 +161,28 @@ func (e TreeMapEngine) Execute(sc *core.Scenario, st *core.Stats) (*core.Violati
 	if err := json.Unmarshal(sc.Knobs, &k); err != nil {
 		core.Harnessf("treemap: bad knobs: %v", err)
 	}
+	v, nt, maxDepth := e.execute(sc, k, st)
+	if v != nil && CapacityBelowPath(k.NodeCap, k.ValueCap, maxDepth) {
+		// Differential classification: does the same scenario pass with an unlimited cache?
+		k2 := k
+		k2.NodeCap, k2.ValueCap = 0, 0
+		if v2, _, _ := e.execute(sc, k2, core.NewStats()); v2 == nil {
+			v = &core.Violation{Property: "C03", Kind: "active-path-eviction", Fingerprint: "active-path-eviction cache-capacity-below-active-path",
+				Detail: fmt.Sprintf("cache capacity (nodes=%d, value bytes=%d) is below what the longest root-to-leaf path needs (%d internal nodes); the same scenario passes with an unlimited cache. Original violation: [%s] %s", k.NodeCap, k.ValueCap, maxDepth, v.Kind, v.Detail)}
+		}
+	}
+	return v, nt
+}
+
+
+func (e TreeMapEngine) execute(sc *core.Scenario, k TMKnobs, st *core.Stats) (*core.Violation, bool, int) {
+	maxDepth := 0
 	keys := UnhexKeys(k.Keys)
 	ctx := context.Background()
 	var ndb dbapi.NodeDB
 	var faulty *FaultyNodeDB
 	if k.Backend != "none" {
-		real := OpenDB(k.Backend, "")
+		real := OpenTreeDB(k.Backend)
 		defer real.Close()
 		faulty = &FaultyNodeDB{NodeDB: real}
 		ndb = faulty
@@ -234,12 +238,8 @@ func (e TreeMapEngine) Execute(sc *core.Scenario, st *core.Stats) (*core.Violati
 			tree = mkvs.New(nil, ndb, rootType, opts...)
 			s.base = Model{}
 		}
-		if err := CompareDump(ctx, tree, s.base); err != nil {
-			if faulty != nil && errors.Is(err, ErrInjected) {
-				return nil
-			}
-			return tmViol("reopen-mismatch", fmt.Sprintf("after close and reopen at the committed root %s: %v", committedRoot.Hash, err))
-		}
+		// No full read-back here: it would warm the cache; later operations read lazily and the
+		// final read-back checks everything.
 		return nil
 	}
 
@@ -484,21 +484,28 @@ func (e TreeMapEngine) Execute(sc *core.Scenario, st *core.Stats) (*core.Violati
 			default:
 				core.Harnessf("treemap: unknown op %q", op.K)
 			}
-			if op.K != "fault" && armed && faulty != nil {
-				// The armed fault did not fire during this operation (cache hit): clear it so that
-				// it cannot surface in harness read-back.
-				faulty.Disarm()
-				armed = false
-			}
+			// An armed fault that did not fire during this operation (cache hits) stays armed for
+			// the following operations; it is cleared before harness read-back.
 		})
 		if pv != nil {
-			return tmViol("panic", fmt.Sprintf("step %d (%s): panic: %v\n%s", step, op.K, pv, stack)), true
+			return tmViol("panic", fmt.Sprintf("step %d (%s): panic: %v\n%s", step, op.K, pv, stack)), true, maxDepth
+		}
+		if d := TrieDepth(s.base); d > maxDepth {
+			maxDepth = d
+		}
+		if os.Getenv("VERIF_DEBUG") != "" {
+			fmt.Fprintf(os.Stderr, "--- after step %d %s\n", step, string(raw))
+			tree.DumpLocal(ctx, os.Stderr, 12)
+			fmt.Fprintln(os.Stderr)
 		}
 		if v != nil {
-			return v, true
+			return v, true, maxDepth
 		}
 	}
 	// Final read-back of every level.
+	if faulty != nil {
+		faulty.Disarm()
+	}
 	var v *core.Violation
 	pv, stack := core.Guard(func() {
 		for level := 0; level <= len(s.handles); level++ {
@@ -509,7 +516,7 @@ func (e TreeMapEngine) Execute(sc *core.Scenario, st *core.Stats) (*core.Violati
 		}
 	})
 	if pv != nil {
-		return tmViol("panic", fmt.Sprintf("final read-back: panic: %v\n%s", pv, stack)), true
+		return tmViol("panic", fmt.Sprintf("final read-back: panic: %v\n%s", pv, stack)), true, maxDepth
 	}
 	for i := len(s.handles) - 1; i >= 0; i-- {
 		s.handles[i].Close()
@@ -524,5 +531,5 @@ func (e TreeMapEngine) Execute(sc *core.Scenario, st *core.Stats) (*core.Violati
 	if e.Faults {
 		nt = nt && faulty != nil && faulty.Fired > 0
 	}
-	return v, nt
+	return v, nt, maxDepth
 }
